@@ -240,7 +240,7 @@ class Worker:
 
 
 def run_campaign(binary, prop, plan, lenscale, seed, thorough, param, logdir, max_restarts=6,
-                 stall_s=300):
+                 stall_s=300, sem=None):
     """plan = [(stratum, cases, max_size)].  Runs one worker per entry, JOBS at a time.  Returns list of
     failure records {type: 'falsified'|'crash'|'hang', case: path, worker: id}"""
     pending = [Worker(i, binary, prop, st, cases, size, lenscale, seed, thorough, (param % i) if "%d" in (param or "") else param, logdir)
@@ -249,6 +249,9 @@ def run_campaign(binary, prop, plan, lenscale, seed, thorough, param, logdir, ma
     lost = 0
     while pending or running:
         while pending and len(running) < JOBS:
+            # stages of one check run side by side: a shared semaphore keeps the total at JOBS processes
+            if sem is not None and not sem.acquire(blocking=False):
+                break
             w = pending.pop(0)
             w.start()
             running.append(w)
@@ -267,11 +270,15 @@ def run_campaign(binary, prop, plan, lenscale, seed, thorough, param, logdir, ma
                             shutil.copy(cur, keep)
                             failures.append({"type": "hang", "case": keep, "worker": w.wid})
                         running.remove(w)
+                        if sem is not None:
+                            sem.release()
                     else:
                         w.done_cases = n
                         w.started = time.time()
                 continue
             running.remove(w)
+            if sem is not None:
+                sem.release()
             TIMES.append((time.time() - w.started, w.stratum, w.cases))
             fail_case = os.path.join(logdir, "w%d.fail.case" % w.wid)
             if rc == 0:
@@ -295,6 +302,8 @@ def run_campaign(binary, prop, plan, lenscale, seed, thorough, param, logdir, ma
             w.done_cases = w.count_cases()
             w.attempt += 1
             if w.attempt <= max_restarts and w.done_cases < w.cases:
+                if sem is not None:
+                    sem.acquire()
                 w.start()
                 running.append(w)
             else:
@@ -457,20 +466,40 @@ def check(prop, tier):
                 print("KNOWN-FINDING: property=%s id=%s %s" % (prop, f.get("id"), f["desc"]))
 
         T_PRE[0] = time.time() - t0
-        # 3. generated campaigns
-        for si, st in enumerate(stages):
+        # 3. generated campaigns: the rapidcheck stages of a check run side by side (their long poles overlap),
+        #    sharing JOBS process slots; a libFuzzer stage runs alone afterwards
+        import threading
+        sem = threading.BoundedSemaphore(JOBS)
+        pre = {}
+
+        def run_stage(si, st):
             logdir = os.path.join(RUN_DIR, "stage%d" % si)
             os.makedirs(logdir)
+            plan = st["plan"]
+            if st.get("workers"):
+                plan = [plan[0]] * st["workers"]
+            pre[si] = run_campaign(bins[st["binary"]], prop, plan, st.get("lenscale", 1), seed, thorough,
+                                   st.get("param_per_worker") or st.get("param", ""), logdir, sem=sem)
+
+        ths = [threading.Thread(target=run_stage, args=(si, st)) for si, st in enumerate(stages) if st.get("engine") != "libfuzzer"]
+        serial = os.environ.get("VERIF_SERIAL_STAGES")
+        for t in ths:
+            t.start()
+            if serial:
+                t.join()
+        for t in ths:
+            t.join()
+        for si, st in enumerate(stages):
+            logdir = os.path.join(RUN_DIR, "stage%d" % si)
             binary = bins[st["binary"]]
             if st.get("engine") == "libfuzzer":
+                os.makedirs(logdir)
                 fails = run_libfuzzer(binary, prop, st, seed, logdir)
                 lost = 0
             else:
-                plan = st["plan"]
-                if st.get("workers"):
-                    plan = [plan[0]] * st["workers"]
-                fails, lost = run_campaign(binary, prop, plan, st.get("lenscale", 1), seed,
-                                           thorough, st.get("param_per_worker") or st.get("param", ""), logdir)
+                if si not in pre:
+                    raise RuntimeError("stage %s did not finish" % st["name"])
+                fails, lost = pre[si]
             m = merge_logs(logdir)
             engines[st.get("engine", "rapidcheck") + ":" + st["name"]] = m["evaluations"]
             merge_into(merged_all, m)
@@ -817,4 +846,14 @@ def main():
 
 
 if __name__ == "__main__":
-    sys.exit(main())
+    # exit 1 is reserved for "VIOLATION printed": an error of the machinery itself must never look like one
+    try:
+        rc = main()
+    except SystemExit:
+        raise
+    except BaseException:
+        import traceback
+        traceback.print_exc()
+        print("SELFTEST-FAILED driver error (see traceback); no verdict")
+        rc = 2
+    sys.exit(rc)
